@@ -219,12 +219,22 @@ func VerifC15Hist(n, ne int, symbolicIDs int, mode int) {
 			w[m] = false
 			verifCheckReachSet(acc, ids, w, "OrReach = (set or reach) minus the node")
 		case 4:
+			// the accumulator holds another member and, or not, the node itself
 			extra := (m + 1) % n
+			withNode := verifrt.NondetChoice("accumulator holds the node", 2) == 1
 			acc := cardinality.NewBitmap64With(ids[extra])
+			if withNode {
+				acc.Add(ids[m])
+			}
 			rc.XorReach(ids[m], d, acc)
 			w := append([]bool{}, want...)
 			w[m] = false
-			w[extra] = !w[extra]
+			if extra != m {
+				w[extra] = !w[extra]
+			}
+			if withNode {
+				w[m] = !w[m]
+			}
 			verifCheckReachSet(acc, ids, w, "XorReach = set xor (reach minus the node)")
 		}
 	}
